@@ -577,6 +577,16 @@ fn check_pl_with(idx: u64, pl: &str, origin: &dyn Fn() -> Value, abstract_font: 
             }
         }
     }
+    // the TFM of a warning-free property list must convert back without a message: such a property list is
+    // the image p1 of a warning-free TFM, so a message here is a message on a second round trip
+    if let Ok(Conv { pl: Ok(_), messages }) = tftopl(&b0) {
+        if !messages.is_empty() {
+            acc.eval();
+            acc.fail(idx, case(), "no TFtoPL message on the TFM of a warning-free property list", format!("{messages:?}"), "the TFM that pl_to_tfm wrote for a warning-free property list draws TFtoPL messages");
+            acc.class("FAIL TFM of a warning-free PL draws messages");
+            return;
+        }
+    }
     // the TFM of a warning-free property list must itself have a round trip: if the crate's reader
     // refuses it there is no canonical form at all
     if let Ok(Conv { pl: Err(e), .. }) = tftopl(&b0) {
@@ -646,7 +656,7 @@ const N_TAGS: u64 = 625 * 27 * 2;
 
 /// F-header: header fields and parameters.
 fn gen_header(i: u64) -> String {
-    let d = vcore::digits(i, &[4, 3, 4, 3, 3, 3, 9]);
+    let d = vcore::digits(i, &[4, 3, 4, 3, 3, 6, 9]);
     let mut s = String::new();
     match d[0] {
         1 => s.push_str("(CODINGSCHEME TEX TEXT)\n"),
@@ -675,7 +685,7 @@ fn gen_header(i: u64) -> String {
         2 => s.push_str("(CHECKSUM O 37777777777)\n"),
         _ => {}
     }
-    s.push_str(["(DESIGNSIZE R 10.0)\n", "(DESIGNSIZE R 1.0)\n", "(DESIGNSIZE R 2047.999999)\n"][d[5] as usize]);
+    s.push_str(["(DESIGNSIZE R 10.0)\n", "(DESIGNSIZE R 1.0)\n", "(DESIGNSIZE R 2047.999999)\n", "(DESIGNSIZE R 1.05)\n", "(DESIGNSIZE R 1.0625)\n", "(DESIGNSIZE R 1.000001)\n"][d[5] as usize]);
     match d[6] {
         1 => s.push_str("(FONTDIMEN (SLANT R 0.25))\n"),
         2 => s.push_str("(FONTDIMEN (SLANT R -20.5) (SPACE R 0.333333) (STRETCH R 0.0))\n"),
@@ -700,7 +710,7 @@ fn gen_header_extra(i: u64) -> Vec<u32> {
         _ => vec![],
     }
 }
-const N_HEADER: u64 = 4 * 3 * 4 * 3 * 3 * 3 * 9;
+const N_HEADER: u64 = 4 * 3 * 4 * 3 * 3 * 6 * 9;
 
 /// F-entry: labelled one-instruction chains placed at every index around 255, behind P unreachable
 /// instructions, so that `entry point + number of restart words` hits 255, 256 and 257 exactly.
@@ -1053,6 +1063,11 @@ fn simple_tfm(chars: &[(u8, u8, u8)], lk: &[[u8; 4]], exten: &[[u8; 4]], sbs: u8
     simple_tfm_face(chars, lk, exten, sbs, 0, 2)
 }
 
+thread_local! {
+    /// design size (fix_word) written by `simple_tfm_face`; 10pt unless a family sets it
+    static DESIGN: std::cell::Cell<i32> = const { std::cell::Cell::new(10 << 20) };
+}
+
 /// The same with the face byte and the number of parameters given.
 fn simple_tfm_face(chars: &[(u8, u8, u8)], lk: &[[u8; 4]], exten: &[[u8; 4]], sbs: u8, face: u8, np: usize) -> Vec<u8> {
     let bc = chars.iter().map(|c| c.0).min().unwrap_or(1) as usize;
@@ -1065,7 +1080,7 @@ fn simple_tfm_face(chars: &[(u8, u8, u8)], lk: &[[u8; 4]], exten: &[[u8; 4]], sb
     }
     let mut hb = vec![0u8; 72];
     hb[0..4].copy_from_slice(&[0x0a, 0x0b, 0x0c, 0x0d]);
-    hb[4..8].copy_from_slice(&(10i32 << 20).to_be_bytes());
+    hb[4..8].copy_from_slice(&DESIGN.with(|d| d.get()).to_be_bytes());
     hb[8] = 4;
     hb[9..13].copy_from_slice(b"TEST");
     hb[48] = 3;
@@ -1658,6 +1673,57 @@ fn main() {
             }
         });
     }
+    // (xi) seven-bit-safe flag x NEXTLARGER chains among 7-bit and 8-bit characters
+    ctx.family("tfm-nextlarger-sevenbit", "hand-written fonts with characters A, B, '372, '373, '374: seven-bit-safe byte 0/128 x every subset of the NEXTLARGER chains {A->B (7->7), '372->'373->'374 (8->8 only), B->'372 (7->8: really unsafe), '374->A (8->7)}", 32, |i, acc| {
+        let (flag, s77, s88, s78, s87) = (i & 1 != 0, i & 2 != 0, i & 4 != 0, i & 8 != 0, i & 16 != 0);
+        let mut chars = vec![(65u8, 0u8, 0u8), (66, 0, 0), (0xFA, 0, 0), (0xFB, 0, 0), (0xFC, 0, 0)];
+        if s77 {
+            chars[0] = (65, 2, 66);
+        }
+        if s78 {
+            chars[1] = (66, 2, 0xFA);
+        }
+        if s88 {
+            chars[2] = (0xFA, 2, 0xFB);
+            chars[3] = (0xFB, 2, 0xFC);
+        }
+        if s87 {
+            chars[4] = (0xFC, 2, 65);
+        }
+        let b = simple_tfm(&chars, &[], &[], if flag { 128 } else { 0 });
+        let before = acc.nontrivial;
+        check_tfm(i, &b, &|| json!({"kind": "tfm-nextlarger-sevenbit", "i": i}), acc);
+        if acc.nontrivial > before && flag && s88 && !s78 {
+            acc.count("sevenbit_flag_with_8bit_only_nextlarger_chain");
+        }
+    });
+    // (xii) design sizes on both sides of the header limits
+    {
+        let sizes: [(&str, i32, bool); 9] = [("0.999999", (1 << 20) - 1, false), ("1.0", 1 << 20, true), ("1.000001", (1 << 20) + 1, true), ("1.05", 1101005, true), ("1.0624", 1113993, true), ("1.0625", 1114112, true), ("16.0", 16 << 20, true), ("2047.999999", i32::MAX, true), ("-1.0", -(1 << 20), false)];
+        let sz = &sizes;
+        ctx.family("tfm-design-sizes", "hand-written fonts with design size 0.999999, 1.0, 1.000001, 1.05, 1.0624, 1.0625, 16.0, 2047.999999, -1.0 pt: a design size of at least 1pt must convert without message (TFtoPL §51: `Design size too small` only below 1.0) and survive the round trip", 9, |i, acc| {
+            let (name, ds, legal) = sz[i as usize];
+            DESIGN.with(|d| d.set(ds));
+            let b = simple_tfm(&[(65, 0, 0), (66, 0, 0)], &[], &[], 0);
+            DESIGN.with(|d| d.set(10 << 20));
+            if legal {
+                if let Ok(Conv { messages, .. }) = tftopl(&b) {
+                    if !messages.is_empty() {
+                        acc.eval();
+                        acc.fail(i, json!({"kind": "tfm-design-sizes", "design_size": name, "hex": hex(&b)}), "no message: the design size is at least 1pt", format!("{messages:?}"), "a font with a legal design size draws a TFtoPL message");
+                        return;
+                    }
+                }
+            }
+            let before = acc.nontrivial;
+            check_tfm(i, &b, &|| json!({"kind": "tfm-design-sizes", "design_size": name}), acc);
+            if acc.nontrivial > before && ds >= 1 << 20 && ds < 1114112 {
+                acc.count("design_size_in_1_to_1_0625pt");
+            }
+        });
+    }
+    ctx.require("sevenbit_flag_with_8bit_only_nextlarger_chain", "a seven-bit-safe-flagged hand-written font with a NEXTLARGER chain among 8-bit characters only");
+    ctx.require("design_size_in_1_to_1_0625pt", "a hand-written font with a design size in [1.0, 1.0625) pt went through the round trip");
     ctx.require("font_with_exactly_256_extensible_recipes", "a warning-free hand-written font with exactly 256 extensible recipes went through the whole round trip");
     ctx.require("font_with_table_at_its_maximum_size", "a warning-free hand-written font with a table at its maximum size went through the whole round trip");
     for c in ["table_at_maximum_nw", "table_at_maximum_nh", "table_at_maximum_nd", "table_at_maximum_ni", "table_at_maximum_ne", "table_at_maximum_np"] {
